@@ -370,7 +370,17 @@ def cut_item(path, text, selector, m=None, lo=0, hi=None):
         cands = []
         for mm in re.finditer(r'(' + VIS + r')\b' + kind + r'\s+' + name + r'\b', m[lo:hi]):
             s = lo + mm.start()
-            k = m.find(';', lo + mm.end())
+            k = lo + mm.end()
+            depth = 0
+            while k < hi:
+                ch = m[k]
+                if ch in '([{':
+                    depth += 1
+                elif ch in ')]}':
+                    depth -= 1
+                elif ch == ';' and depth == 0:
+                    break
+                k += 1
             cands.append((s, k))
         s, e = pick(cands, sel)
         return mk(kind, name, s, e)
